@@ -411,6 +411,12 @@ def handle (op : String) (args : List String) : Option String :=
   | "c12.holds.fileparam_content" => do
     let ((st, l), _) ← (do let st ← pRaw; let l ← pCounted (do let a ← pRaw; let b ← pRaw; pure (a, b)); pure (st, l) : P _).run args
     pure (boolStr (st == hs "ok" && l.all fun (a, b) => a == b))
+  | "c12.holds.codefile_value_kept" =>
+    -- a code-declared File parameter (with a default): value, producer artifact and re-save survive the reload
+    match args with
+    | [_, st, live, reloaded, a1, a2, s1, s2] =>
+      some (boolStr (st == hs "ok" && live == reloaded && a1 == a2 && a1 == live && s1 == s2))
+    | _ => some "false"
   | "c12.holds.fileparam_description" =>
     match args with
     | [a, b] => some (boolStr (a == b))
